@@ -181,6 +181,11 @@ func corrCodec(prop string, outDir string, seed uint64, tier string, withEdits b
 	csU := newCaseSet(outDir, prop+"_unmarshal", imports, "list sfield * bytes * obs (list (list nat * fval))", "ok_unmarshal", 1500)
 	// the class round-trip statement, evaluated by the model on every generated (layout, value)
 	csK := newCaseSet(outDir, prop+"_class", append(imports, "GC.Codec.Class"), "list sfield * sval * obs bytes", "test_class_rt", 1500)
+	var csR *caseSet
+	if withEdits {
+		// the C20 statement, evaluated by the model on every string of the run (accepted ones are what matters)
+		csR = newCaseSet(outDir, prop+"_respell", append(imports, "GC.Codec.C20Test"), "list sfield * bytes * obs (list (list nat * fval))", "test_c20", 1500)
+	}
 	var types []codecCase
 	nWild, nClass, nVals := 120, 160, 6
 	if tier == "thorough" {
@@ -205,16 +210,23 @@ func corrCodec(prop string, outDir string, seed uint64, tier string, withEdits b
 		csM.prelude = append(csM.prelude, def)
 		csU.prelude = append(csU.prelude, def)
 		csK.prelude = append(csK.prelude, def)
+		if csR != nil {
+			csR.prelude = append(csR.prelude, def)
+		}
 	}
 	rep.Distribution["types_wild"] = nWild
 	rep.Distribution["types_class"] = nClass
 	rep.Distribution["types_hand"] = len(handShapes)
 	rep.Distribution["types_shipped"] = len(shippedTypes())
+	rep.Distribution["edit_budget"] = map[bool]int{false: 110, true: 2500}[tier == "thorough"]
 
 	unmarshalCase := func(tc codecCase, h string, kind string) (reflect.Value, error, interface{}) {
 		p := reflect.New(tc.t)
 		err, pan := unmarshalObs(h, p.Interface())
 		csU.add("("+tc.tname+", "+coqStr(h)+", "+obsUnmarshalCoq(p, err, pan)+")", map[string]interface{}{"type": tc.t.String(), "hash": h, "kind": kind})
+		if csR != nil && err == nil && pan == nil {
+			csR.add("("+tc.tname+", "+coqStr(h)+", "+obsUnmarshalCoq(p, err, pan)+")", map[string]interface{}{"type": tc.t.String(), "hash": h, "kind": "C20 statement"})
+		}
 		rep.count("u:"+tc.tname+h, true)
 		rep.bump("unmarshal_" + kind)
 		if err == nil && pan == nil {
@@ -313,6 +325,10 @@ func corrCodec(prop string, outDir string, seed uint64, tier string, withEdits b
 	must(csU.flush())
 	must(csK.flush())
 	rep.CaseSets = []string{prop + "_marshal", prop + "_unmarshal", prop + "_class"}
+	if csR != nil {
+		must(csR.flush())
+		rep.CaseSets = append(rep.CaseSets, prop+"_respell")
+	}
 	rep.Rule = "struct types generated with reflect.StructOf over the grammar of kinds x tag options (wild: anything; class: built inside the unambiguous class), hand-written shapes (pointers, embedding, shadowing, text marshalers, unexported/ignored fields) and the shipped scheme structs; per value: Marshal outcome (string or projected error) and Unmarshal outcome of the produced string (all leaf values or projected error) are compared with the Coq model; the property oracle (round trip and stability) is applied to in-class layouts with presentable values. Every case counts as non-trivial; distinct by (type, value) / (type, string)."
 	return rep
 }
